@@ -199,6 +199,13 @@ func (t Term) norm() Term {
 		if e.isConst() && e.C > 0 && e.C <= 16384 {
 			c = new(big.Int).Lsh(c, uint(e.C))
 			e = affConst(0)
+		} else if !e.isConst() && c.Sign() != 0 {
+			// symbolic exponent: move the even part of the coefficient into the exponent (canonical form)
+			tz := c.TrailingZeroBits()
+			if tz > 0 {
+				c = new(big.Int).Rsh(c, tz)
+				e = e.add(affConst(int64(tz)))
+			}
 		}
 		nm := mono{coef: c, syms: m.syms, exp: e}
 		k := nm.key()
@@ -599,6 +606,17 @@ func (be *BigEval) termOf(st btState, v ssa.Value) Term {
 			return t
 		}
 	}
+	if u, ok := s.(*ssa.UnOp); ok && u.Op == token.MUL {
+		d := desc(u.X)
+		if t, ok := be.Glob[d]; ok {
+			return t // stored earlier in this function (package initialisers)
+		}
+		if g, ok := u.X.(*ssa.Global); ok {
+			if c, ok := be.P.globalBigConst(g); ok {
+				return termConst(c)
+			}
+		}
+	}
 	switch x := s.(type) {
 	case *ssa.Alloc:
 		return termConst(0)
@@ -974,4 +992,50 @@ func (g Guard) bitlenUpper() (Affine, bool) {
 		return g.BoundA.add(affConst(-1)), true
 	}
 	return Affine{}, false
+}
+
+// globalBigConst: package-level *big.Int variables that are assigned exactly once, in a package
+// initialiser, from big.NewInt(constant), and never used as receiver of a mutating method.
+func (P *Program) globalBigConst(g *ssa.Global) (int64, bool) {
+	if P.bigConsts == nil {
+		P.bigConsts = map[*ssa.Global]*int64{}
+		stores := map[*ssa.Global]int{}
+		vals := map[*ssa.Global]int64{}
+		mutated := map[*ssa.Global]bool{}
+		for _, fn := range P.AllFuncs {
+			allInstrs(fn, func(i ssa.Instruction) {
+				switch x := i.(type) {
+				case *ssa.Store:
+					if gg, ok := x.Addr.(*ssa.Global); ok && isBigIntPtr(x.Val.Type()) {
+						stores[gg]++
+						if c, ok := x.Val.(*ssa.Call); ok && isCallTo(c, "big.NewInt", "math/big.NewInt") && strings.HasPrefix(fn.Name(), "init") {
+							if k, ok := constInt(c.Call.Args[0]); ok {
+								vals[gg] = k
+								return
+							}
+						}
+						mutated[gg] = true
+					}
+				case *ssa.Call:
+					if m := bigMethod(x); m != "" && bigMutators[m] && len(x.Call.Args) > 0 {
+						if u, ok := x.Call.Args[0].(*ssa.UnOp); ok {
+							if gg, ok := u.X.(*ssa.Global); ok {
+								mutated[gg] = true
+							}
+						}
+					}
+				}
+			})
+		}
+		for gg, n := range stores {
+			if n == 1 && !mutated[gg] {
+				v := vals[gg]
+				P.bigConsts[gg] = &v
+			}
+		}
+	}
+	if p, ok := P.bigConsts[g]; ok && p != nil {
+		return *p, true
+	}
+	return 0, false
 }
